@@ -17,7 +17,7 @@ BUDGET = {'quick': 25, 'thorough': 300}
 BLOCK = 10
 STREAM_ORDER = ['ops', 'guards', 'faults', 'chart', 'cfg']
 RULE = (common.GEN + 'every state (all kinds, history and final included) and transition carries 0-3 conditions of each kind, each a probe '
-        'P.cond(j, v, __old__, event) - a third of them also logs sent(na), sent(ea) and received(ea), which are compared with the events the returned micro steps sent so far (in half of the runs code sends and notifies) -; code modifies the context variable v. Twin runs: run A (all conditions true) is checked against the '
+        'P.cond(j, v, __old__, event) - a third of them also logs sent(na), sent(ea) and received(ea), which are compared with the events the returned micro steps sent so far (in half of the runs code sends and notifies) -; code modifies the context variable v; a third of the guarded transitions have no action at all (their conditions are due all the same). Twin runs: run A (all conditions true) is checked against the '
         'interleaving of code and contract probes implied by the returned micro steps and against the model value of v / __old__.v; then '
         'for EVERY contract-evaluation occurrence k of run A (thorough) or 12 drawn occurrences (quick) run B_k replays the same script '
         'with occurrence k returning false and must raise the right error class with .obj/.condition, with a probe log equal to the '
@@ -89,7 +89,8 @@ def expected(sp, r, vm, flags=None):
                     body.append(('cond', j, vm.v, None, evm))
                 for j in t.inv:
                     body.append(('cond', j, vm.v, _live(oldt, vm), evm))
-                body.append(('act', t.i, evm))
+                if not t.noact:
+                    body.append(('act', t.i, evm))
                 if t.bump:
                     vm.v += 3
                     vm.w += 1
@@ -122,7 +123,7 @@ def expected(sp, r, vm, flags=None):
 
 def run(ch, tier):
     res = Result()
-    cfg = swarm(ch.s('cfg'), Cfg(contracts=True, bump=True, sentconds=True, sends=ch.s('cfg').flag(1, 2), notify=ch.s('cfg').flag(1, 2)), tier)
+    cfg = swarm(ch.s('cfg'), Cfg(contracts=True, bump=True, sentconds=True, noact=True, sends=ch.s('cfg').flag(1, 2), notify=ch.s('cfg').flag(1, 2)), tier)
     sp = gen_spec(ch.s('chart'), cfg)
     own = owners(sp)
     cfp = fp(sp.fingerprint())
